@@ -1,3 +1,100 @@
-(* C15 — statements are added when the corresponding facts file lands *)
-From SV Require Import Bytes Client Transport Server.
-Theorem C15_placeholder : True. Proof. exact I. Qed.
+(* C15 — the client's view of the server stays correct over whole sessions.
+
+   Composition (IronFleet style) of the wire theorems against the reference server of ms/Server.v,
+   proved in ms/SessionFacts.v for the operations whose reply is a single status line (HAVESPACE,
+   PUTSCRIPT, CHECKSCRIPT, DELETESCRIPT, SETACTIVE, native RENAMESCRIPT):
+     writer      C08  the strict parser reads back exactly the command the client wrote;
+     server           parses it, executes it on its abstract state, renders a status reply with
+                      whatever encoding choice comes next (text absent / quoted / literal, response code);
+     reader      C09  the client's result mirrors that reply and exactly the reply is consumed.
+   Hence (C15_step) the result of the call is the abstract answer of the server state at that moment,
+   the server received exactly one well-formed command in a legal state and moved to the abstract
+   successor state, and nothing is left in either buffer; by induction (C15_session) this holds for every
+   session of such operations the reference server accepts, of any length, for every sequence of encoding
+   choices.  Segmentation independence of every operation is C05 (interp agrees with the stream
+   semantics used here).  LISTSCRIPTS / GETSCRIPT / the emulated rename are composed in the
+   correspondence check (model client vs real client vs server state after every step of generated
+   sessions), not in Coq: the assembling step of read_response with quoted literals is not proved. *)
+From Coq Require Import String.
+From Coq Require Import List NArith Bool Arith.
+From SV Require Import Bytes Base64 Client Transport Server Session WriterFacts StatusFacts SessionFacts.
+Import ListNotations.
+Local Open Scope nat_scope.
+
+(* the reference server, in step and authenticated, receiving the bytes of one single-status command: it parses exactly that command, answers with one status reply rendered from its abstract answer, and is in step again *)
+Theorem C15_server_receives_one_command :
+  forall (verb : bytes) (args : list arg) (s : sstate) (a : answer) (s2 : sstate),
+  In verb simple_verbs ->
+  conforming s ->
+  srv_step verb (map decode_arg args) s = Some (a, s2) ->
+  exists (c : N) (s3 : sstate),
+    pick s2 = (c, s3) /\
+    srv_react s (command_bytes verb args) =
+    (s3,
+     render_reply
+       match a with
+       | AnsOK code => mk_reply StOK code (bs "done") c
+       | AnsNO code => mk_reply StNO code (bs "refused") c
+       | _ => mk_reply StOK None [] c
+       end) /\
+    conforming s3 /\
+    s_store s3 = s_store s2 /\ s_active s3 = s_active s2 /\ s_cfg s3 = s_cfg s.
+Proof. exact SessionFacts.srv_react_simple. Qed.
+Print Assumptions C15_server_receives_one_command.
+
+(* one operation end to end: result = abstract answer, server state = abstract successor, both buffers empty *)
+Theorem C15_step :
+  forall (f : nat) (verb : bytes) (args : list arg) (st : cstate) 
+    (w : sworld sstate) (a : answer) (s2 : sstate),
+  In verb simple_verbs ->
+  s_stream sstate w = [] ->
+  conforming (s_peer sstate w) ->
+  srv_step verb (map decode_arg args) (s_peer sstate w) = Some (a, s2) ->
+  exists (c : N) (s3 : sstate),
+    pick s2 = (c, s3) /\
+    conforming s3 /\
+    s_store s3 = s_store s2 /\
+    s_active s3 = s_active s2 /\
+    s_cfg s3 = s_cfg (s_peer sstate w) /\
+    interp_s sstate srv_react srv_connect srv_tls (simple_cmd (S f) verb args st finish) w =
+    (answer_outcome a c st,
+     {|
+       s_peer := s3;
+       s_stream := [];
+       s_n := S (s_n sstate w);
+       s_conn := s_conn sstate w;
+       Transport.s_tls := Transport.s_tls sstate w;
+       s_log :=
+         WSend (s_conn sstate w) (Transport.s_tls sstate w) (command_bytes verb args)
+         :: s_log sstate w
+     |}).
+Proof. exact SessionFacts.simple_cmd_against_server. Qed.
+Print Assumptions C15_step.
+
+(* whole sessions, no length bound: results, final client fields and final server state are those of the abstract session *)
+Theorem C15_session :
+  forall (ops : list op) (f : nat) (st : cstate) (w : sworld sstate) 
+    (outs : list outcome) (st' : cstate) (s' : sstate),
+  c_auth st = true ->
+  (forall o : op, In o ops -> needs_version o = true -> has_cap (bs "VERSION") st = true) ->
+  s_stream sstate w = [] ->
+  conforming (s_peer sstate w) ->
+  abs_session ops (s_peer sstate w) st = Some (outs, st', s') ->
+  exists w' : sworld sstate,
+    run_ops_s sstate srv_react srv_connect srv_tls (S f) ops st w = (outs, st', w') /\
+    s_peer sstate w' = s' /\ s_stream sstate w' = [] /\ conforming s'.
+Proof. exact SessionFacts.session_in_step. Qed.
+Print Assumptions C15_session.
+
+(* what the abstract session is: the server's own exec_command, command by command *)
+Example C15_session_example :
+  match abs_session [OPutscript (bs "b") (bs "stop;"); ODeletescript (bs "a"); OSetactive (bs "b");
+                     ODeletescript (bs "a"); OPutscript (bs "c") (bs "x"); ORenamescript (bs "b") (bs "a")]
+                    demo_server (mkC true None [] [(bs "VERSION", Some (bs "1.0"))]) with
+  | Some (outs, _, s') =>
+      map (fun o => match o with ODone (VBool b) _ => Some b | _ => None end) outs
+      = [Some true; Some false; Some true; Some true; Some true; Some true]
+      /\ s_store s' = [(bs "a", bs "stop;"); (bs "c", bs "x")] /\ s_active s' = Some (bs "a")
+  | None => False
+  end.
+Proof. vm_compute. repeat split. Qed.
